@@ -34,9 +34,9 @@ import (
 	"github.com/elastos/Elastos.ELA/core/checkpoint"
 	ctypes "github.com/elastos/Elastos.ELA/core/types/common"
 	"github.com/elastos/Elastos.ELA/core/types/outputpayload"
-	"github.com/elastos/Elastos.ELA/mempool"
 	crstate "github.com/elastos/Elastos.ELA/cr/state"
 	"github.com/elastos/Elastos.ELA/dpos/state"
+	"github.com/elastos/Elastos.ELA/mempool"
 	"github.com/elastos/Elastos.ELA/wallet"
 )
 
@@ -103,7 +103,7 @@ func populate(r *hx.Rand, v reflect.Value, depth int, path string) {
 		if t.Kind() == reflect.Uint {
 			x &= 0x7fffffff
 		}
-		v.SetUint(x & (1<<(uint(t.Bits()))-1 | (1<<(uint(t.Bits())-1) - 1)))
+		v.SetUint(x & (1<<(uint(t.Bits())) - 1 | (1<<(uint(t.Bits())-1) - 1)))
 	case reflect.Int8, reflect.Int16, reflect.Int32, reflect.Int64, reflect.Int:
 		if t.Kind() == reflect.Int {
 			v.SetInt(int64(r.U64() & 0x7fffffff)) // `int` fields travel as uint32
@@ -194,6 +194,7 @@ var outputType = reflect.TypeOf(ctypes.Output{})
 
 // back pointers / caches: not part of the saved state
 var skipPtr = map[string]bool{"state.Arbiters": true, "state.Committee": true, "state.State": true, "sync.RWMutex": true, "sync.Mutex": true}
+
 // CRInfo is stored in the CR key frames through SerializeUnsigned(CRInfoDIDVersion): the
 // registration signature is deliberately not part of the saved state.
 var notState = map[string]bool{"payload.CRInfo.Signature": true, "wallet.CoinsCheckPoint.RWMutex": true}
@@ -417,12 +418,37 @@ func oracle(t []string, out string) *hx.Violation {
 	if len(t) > 3 && t[3] != "-" && digest(d1) != t[3] {
 		return &hx.Violation{Kind: "field-lost", Detail: "the instance read back differs from the populated instance that was written (digest " + digest(d1) + " vs " + t[3] + ")"}
 	}
+	if t[1] == "dpos.CheckPoint" {
+		if v := restoreLayer(hx.UnHex(t[2])); v != nil {
+			return v
+		}
+	}
 	c2, _, err := decode(k, ser(c))
 	if err != nil {
 		return &hx.Violation{Kind: "reencode-not-decodable", Detail: err.Error()}
 	}
 	if d2 := canon(c2); d2 != d1 {
 		return &hx.Violation{Kind: "reencode-unstable", Detail: firstDiff(d1, d2)}
+	}
+	return nil
+}
+
+// restoreLayer: what Manager.Restore does after Deserialize — OnInit hands the checkpoint's fields to the
+// arbiters (Arbiters.RecoverFromCheckPoints) — followed by what the next Snapshot does — a checkpoint is
+// built from the arbiters again (initFromArbitrators).  Checkpoint → arbiters → checkpoint must not lose or
+// change a saved field.
+func restoreLayer(b []byte) *hx.Violation {
+	ar := &state.Arbiters{State: &state.State{StateKeyFrame: state.NewStateKeyFrame()}}
+	cp := state.NewCheckpoint(ar)
+	if err := cp.Deserialize(bytes.NewReader(b)); err != nil {
+		return nil
+	}
+	want := canon(cp)
+	cp.OnInit()
+	cp2 := state.NewCheckpoint(ar)
+	cp2.Height = cp.Height // the checkpoint's own height does not travel through the arbiters
+	if got := canon(cp2); got != want {
+		return &hx.Violation{Kind: "restore-layer-loses-field", Detail: "DPoS checkpoint → Arbiters.RecoverFromCheckPoints → NewCheckpoint: " + firstDiff(want, got)}
 	}
 	return nil
 }
@@ -477,7 +503,7 @@ func nontrivial(t []string, out string) bool {
 		return len(t) > 1
 	}
 	if t[0] == "wcont" {
-		return len(t) > 3 && !strings.Contains(out, "coins 0 ")
+		return len(t) > 3 && !strings.Contains(out, " coins 0 ")
 	}
 	return out != "err" && len(t[2]) > 64
 }
